@@ -25,7 +25,7 @@ import (
 )
 
 func main() {
-	hx.Main(run, "", nil, map[string]func(args []string) error{"probe": probe})
+	hx.Main(run, "", nil, map[string]func(args []string) error{"probe": probe, "c12-crash": childCrash, "c12-recover": childRecover})
 }
 
 func probe(args []string) error {
@@ -746,6 +746,7 @@ func run(o hx.RunOpts) error {
 	}
 	runLock(ctx, s, o, p.Fork())
 	runTxHist(ctx, s, o, p.Fork())
+	runNewFaults(ctx, s, o)
 	n := o.N(1200, 10000)
 	for i := 0; i < n; i++ {
 		repl := false
